@@ -25,12 +25,19 @@ pub fn set_current_case(text: &str) {
         std::ptr::copy_nonoverlapping(b.as_ptr(), CUR.0.get() as *mut u8, n);
     }
     CUR_LEN.store(n, Release);
+    // per-case watchdog: a single case that runs longer than this is reported (with the case) and the process exits
+    // with status 124; the driver treats that as "hang" (exit 2, never a violation) instead of waiting for its own watchdog
+    unsafe {
+        alarm(CASE_ALARM_SECS.load(Relaxed) as u32);
+    }
 }
+pub static CASE_ALARM_SECS: AtomicUsize = AtomicUsize::new(60);
 
 extern "C" {
     fn signal(signum: i32, handler: usize) -> usize;
     fn write(fd: i32, buf: *const u8, n: usize) -> isize;
     fn _exit(code: i32) -> !;
+    fn alarm(seconds: u32) -> u32;
 }
 
 extern "C" fn on_fatal(sig: i32) {
@@ -41,13 +48,18 @@ extern "C" fn on_fatal(sig: i32) {
         write(2, CUR.0.get() as *const u8, n);
         let tail = b"\n@@CRASH-CASE-END@@\n";
         write(2, tail.as_ptr(), tail.len());
+        if sig == 14 {
+            let h = b"@@HANG@@ a single case exceeded the per-case time limit\n";
+            write(2, h.as_ptr(), h.len());
+            _exit(124);
+        }
         _exit(128 + sig);
     }
 }
 
 pub fn install_crash_reporter() {
     unsafe {
-        for s in [11, 7, 6, 4, 8] {
+        for s in [11, 7, 6, 4, 8, 14] {
             signal(s, on_fatal as *const () as usize);
         }
     }
